@@ -1,5 +1,11 @@
-(* C05, "never early", store clause: the storage confirm (relay) of a message is emitted only
-   after a batch containing the Set of its key completed.  ONLY property statements.
+(* C05, "never early", store clause.  ONLY property statements.
+   Refined clause (msgstorage.persist confirms, after ProcessBatch, every add it wrote AND every add that a del of
+   the same key cancelled in the same flush window - `settled`; a relay is sent by the storage.confirm call whose
+   ConfirmMeta.Confirm() completes the message):
+     the storage confirm (relay) of key k is preceded, in the event sequence, by a completed batch that Sets k,
+     OR by the snapshot of a persist in which the add of k was cancelled by a del of k - and such a snapshot only
+     happens when k was both Added and Del-requested by labels of the run (the message was already settled by
+     its consumer: nothing needs to be durable).
    (Numbering, exactly-once and the queue-push clauses of C05 are the lead's.) *)
 From Coq Require Import String List NArith Bool.
 Import ListNotations.
@@ -7,19 +13,48 @@ From GMQ Require Import Store.KeyFmt Store.gen.OptsGen Store.KV Store.MsgStore S
   Proofs.StoreKVProofs Proofs.StoreKeyProofs Proofs.StoreMsgProofs.
 Open Scope N_scope.
 
-Theorem C05_generated_confirm_after_batch : persist_confirm_after_batch = true.
-Proof. reflexivity. Qed.
+Theorem C05_generated_confirm_shape :
+  persist_confirm_after_batch = true /\ persist_confirm_guarded = true /\ persist_settled_confirmed = true /\ persist_confirm_counts = true.
+Proof. repeat split; reflexivity. Qed.
 
 (* every engine, persistent or transient store, confirm mode or not, every label sequence
    (persist split into swap / batch / confirm emission, ticks, kills, API calls in between) *)
 Theorem C05_store_not_early : forall e p c ls evs1 k m evs2,
   snd (ms_run (ms_init e p c) ls) = evs1 ++ EvRelay k m :: evs2 ->
-  existsb (batch_sets k) evs1 = true.
+  existsb (batch_sets k) evs1 = true \/ existsb (cancelled_ev k) evs1 = true.
 Proof. exact store_not_early. Qed.
 Print Assumptions C05_store_not_early.
 
-(* non-vacuity: a run that does emit a relay, with other work between batch and emission *)
+(* EvCancelled is a ghost event of the snapshot; it means what it says *)
+Theorem C05_cancelled_means_added_and_deleted : forall e p c ls k,
+  existsb (cancelled_ev k) (snd (ms_run (ms_init e p c) ls)) = true ->
+  existsb (is_add_of k) ls = true /\ existsb (is_del_of k) ls = true.
+Proof. exact cancelled_means_settled. Qed.
+Print Assumptions C05_cancelled_means_added_and_deleted.
+
+(* a key that was never Del-requested is relayed only after a completed batch Set it (the unrefined clause) *)
+Theorem C05_store_not_early_undeleted : forall e p c ls evs1 k m evs2,
+  existsb (is_del_of k) ls = false ->
+  snd (ms_run (ms_init e p c) ls) = evs1 ++ EvRelay k m :: evs2 ->
+  existsb (batch_sets k) evs1 = true.
+Proof. exact store_not_early_undeleted. Qed.
+Print Assumptions C05_store_not_early_undeleted.
+
+(* non-vacuity: a relay after its batch (with other work between batch and emission), and a relay of a settled message *)
 Example C05_store_not_early_example :
   snd (ms_run (ms_init Badger true true) [MAdd (mk 100 1) qa; MPersistSwap; MPersistBatch; MAdd (mk 101 2) qa; MPersistConfirm]) =
   [EvBatch [BSet (msg_key qa 100) (strip (mk 100 1))]; EvRelay (msg_key qa 100) (mk 100 1)].
+Proof. vm_compute. reflexivity. Qed.
+
+Example C05_store_settled_example :
+  snd (ms_run (ms_init Badger true true) [MAdd (mk 100 1) qa; MDel (mk 100 1) qa; MPersistTick]) =
+  [EvCancelled (msg_key qa 100); EvBatch []; EvRelay (msg_key qa 100) (mk 100 1)].
+Proof. vm_compute. reflexivity. Qed.
+
+(* ConfirmMeta.Confirm(): of two copies of one publish (one meta object, ExpectedConfirms = 2) written in one batch,
+   exactly one is relayed *)
+Example C05_store_one_relay_per_message :
+  let m1 := {| m_id := 100; m_data := 1; m_ctag := Some 1; m_meta := 7; m_expected := 2 |} in
+  length (filter (fun e => match e with EvRelay _ _ => true | _ => false end)
+                 (snd (ms_run (ms_init Badger true true) [MAdd m1 qa; MAdd m1 (bs "b"); MPersistTick]))) = 1%nat.
 Proof. vm_compute. reflexivity. Qed.
